@@ -425,7 +425,7 @@ where
     }
 
     pub fn add_string(&mut self, string: &str) -> Result<usize, DataError> {
-        let start = self.push_to_data_block(BasicData::CharList(string.len()))?;
+        let start = self.push_to_data_block(BasicData::CharList(string.chars().count()))?;
         for c in string.chars() {
             self.push_to_data_block(BasicData::Char(c))?;
         }
